@@ -153,6 +153,21 @@ for _t in ("FLOAT", "QTY", "PRICE", "PRICEOFFSET", "AMT", "PERCENTAGE"):
     BAD[_t] = ["abc", "nan", "1,5"]
 
 
+# Independent audit table for the fault class "value outside the declared type" (added after seeded change C15-4, which
+# loosened the lexical check and was seen by C19 only): texts that are inside / outside the FIX 4.4 value space of the
+# type whatever the code says.  Entries that touch a listed C19 finding (LENGTH, '=' in strings, 6-digit fractions,
+# leap second, year 0000) are deliberately absent.
+AUDIT_BAD = {k: [x for x in v if x != "a=b" and x != "=="] for k, v in BAD.items()}
+for _t in ("INT", "SEQNUM", "NUMINGROUP", "DAYOFMONTH"):
+    AUDIT_BAD[_t] = AUDIT_BAD[_t] + ["1_0", "5\n", " 5", "5 ", "1e1", "1.0"]
+for _t in ("FLOAT", "QTY", "PRICE", "PRICEOFFSET", "AMT", "PERCENTAGE"):
+    AUDIT_BAD[_t] = AUDIT_BAD[_t] + ["1_0", "1e3", "10.5 ", "100\n", " 1.5", "inf", "0x10"]
+AUDIT_BAD["UTCTIMESTAMP"] = AUDIT_BAD["UTCTIMESTAMP"] + ["20230115-12:30:45.1234", "20230115-12:30:45.12", "20230115-12:30:45 ", "20230115-12:30"]
+AUDIT_BAD["UTCTIMEONLY"] = AUDIT_BAD["UTCTIMEONLY"] + ["12:30:45.1234", "12:30:45\n", "12:30"]
+AUDIT_BAD["LOCALMKTDATE"] = AUDIT_BAD["LOCALMKTDATE"] + ["20230115 ", "2023011"]
+AUDIT_BAD["BOOLEAN"] = AUDIT_BAD["BOOLEAN"] + ["y", "1"]
+
+
 class Dict:
     def __init__(self, idx, name, rel, schema=None, xml=None):
         self.idx, self.name, self.rel, self.xml = idx, name, rel, xml
@@ -1053,10 +1068,37 @@ def xml_enum_check(ctx):
                              "value outside the XML enumeration accepted")
 
 
+def value_audit(ctx):
+    """Fault class 'value outside / inside the declared type', decided by the independent table above."""
+    n = 0
+    for D in dicts().values():
+        if D.xml is not None:
+            continue
+        for tag, f in D.fields.items():
+            fld = D.schema._tag2field[tag]
+            ftype = fld.ftype.upper()
+            if fld.values:
+                want = [(k, 0) for k in list(fld.values.keys())[:3]] + [("~~", 1), ("#?", 1)]
+            else:
+                want = [(t, 0) for t in GOOD.get(ftype, [])] + [(t, 1) for t in AUDIT_BAD.get(ftype, [])]
+            for text, exp in want:
+                if ftype == "SEQNUM" and text == "0" and tag == "16":
+                    continue  # EndSeqNo=0 means "to infinity"
+                n += 1
+                got = D.verdict(tag, text)
+                case = {"dict": D.name, "value_audit": [tag, text, exp], "type": ftype}
+                ctx.case(("audit", D.name, tag, text), True)
+                if got != exp:
+                    ctx.fail(case, "value %r for field %s (type %s) must be %s, the real validate_value gave code %d"
+                             % (text, tag, ftype, "accepted" if exp == 0 else "refused with FIXMessageError", got), None)
+    ctx.extra["value_audit_checks"] = n
+
+
 def run(ctx):
     t0 = time.time()
     rng = ctx.rng
     xml_enum_check(ctx)
+    value_audit(ctx)
     cases = corpus() + gen_cases(ctx, rng, ctx.scale(2, 6), ctx.scale(1, 3), n_synth=ctx.scale(60, 400))
     ctx.extra["gen_s"] = round(time.time() - t0, 1)
     evaluate(ctx, cases)
@@ -1094,6 +1136,11 @@ def replay(path):
         print("model result recorded:", rec.get("model_result"))
         return 1
     D = dict_of_case(case)
+    if "value_audit" in case:
+        tag, text, exp = case["value_audit"]
+        got = D.verdict(tag, text)
+        print("validate_value(%r) on field %s (%s): code %d, expected %d" % (text, tag, case.get("type"), got, exp))
+        return 0 if got == exp else 1
     if "components_order" in case:
         root = ET.parse(os.path.join(core.REPO, D.rel)).getroot()
         comps = root.find("components")
